@@ -48,6 +48,10 @@ class OItem:
     when: datetime = field(default_factory=lambda: datetime(2020, 1, 1))
     price: Optional[OMoney] = None
 
+    def __len__(self):
+        # container-like: an item without tags is falsy ("is None" and "is falsy" must not be confused by the mapper)
+        return len(self.tags)
+
 
 @dataclass(eq=False)
 class OSubItem(OItem):
@@ -63,6 +67,10 @@ class OHolder:
     peers: List[OHolder] = field(default_factory=list)
     vec: Optional[OVec] = None
 
+    def __len__(self):
+        # container-like: a holder whose `many` is empty is falsy
+        return len(self.many)
+
 
 @dataclass(eq=False)
 class OSubHolder(OHolder):
@@ -75,6 +83,10 @@ class OVec:
     x: float = 0.0
     y: float = 0.0
     owner: Optional[OHolder] = None
+
+    def __bool__(self):
+        # the zero vector is falsy
+        return bool(self.x or self.y)
 
 
 @dataclass
